@@ -61,7 +61,8 @@ CONSTANTS
   RankChoices,   \* set of functions Nodes -> Nat explored by Init: order of the public keys
   PermuteLists,  \* TRUE: every order of the participant lists of the proposal is explored
   AtomicGossip,  \* TRUE: the whole proposal/accept/execute gossip is one step
-  AtomicExec     \* TRUE: the whole kyber run is one step
+  AtomicExec,    \* TRUE: the whole kyber run is one step
+  MaxDrop        \* number of bundles the network may lose on one directed link (0 or 1)
 
 VARIABLES
   rank,     \* [Nodes -> Nat]  order of the nodes' public keys (bytes)
@@ -75,12 +76,13 @@ VARIABLES
   phase,    \* [Nodes -> phase of the execution]
   hashes,   \* [Nodes -> SUBSET bundle]  echoBroadcast.hashes
   bnet,     \* set of <<bundle, to>> bundle sends in flight
+  dropped,  \* number of direct bundle copies lost so far
   qual,     \* [Nodes -> SUBSET Nodes]   kyber's QUAL at the node
   clock,    \* wall clock
   fin,      \* [Nodes -> group]      finished.FinalGroup of this epoch
   op        \* last action (history; hidden by VIEW)
 
-vars == <<rank, prop, st, stored, seen, gnet, plock, phase, hashes, bnet, qual, clock, fin, op>>
+vars == <<rank, dropped, prop, st, stored, seen, gnet, plock, phase, hashes, bnet, qual, clock, fin, op>>
 
 Range(s) == {s[k] : k \in DOMAIN s}
 
@@ -280,6 +282,7 @@ Init ==
   /\ phase = [n \in Nodes |-> "idle"]
   /\ hashes = [n \in Nodes |-> {}]
   /\ bnet = {}
+  /\ dropped = 0
   /\ qual = [n \in Nodes |-> {}]
   /\ clock = TMin
   /\ fin = [n \in Nodes |-> NoGroup]
@@ -303,14 +306,14 @@ Propose(js, rs, ls) ==
      \* the leader's own calls are tracked in plock: Command returns when all have returned
      /\ plock' = Recipients(t) \ {Leader}
   /\ op' = [name |-> "Propose", join |-> js, remain |-> rs, leave |-> ls]
-  /\ UNCHANGED <<rank, gnet, phase, hashes, bnet, qual, clock, fin>>
+  /\ UNCHANGED <<rank, dropped, gnet, phase, hashes, bnet, qual, clock, fin>>
 
 (* Command(Join): joiners do not gossip                                      *)
 Join(n) ==
   /\ n \in JoinSet /\ st[n] = "Proposed"
   /\ st' = [st EXCEPT ![n] = "Joined"]
   /\ op' = [name |-> "Join", n |-> n]
-  /\ UNCHANGED <<rank, prop, stored, seen, gnet, plock, phase, hashes, bnet, qual, clock, fin>>
+  /\ UNCHANGED <<rank, dropped, prop, stored, seen, gnet, plock, phase, hashes, bnet, qual, clock, fin>>
 
 (* Command(Accept)                                                           *)
 Accept(n) ==
@@ -320,7 +323,7 @@ Accept(n) ==
      /\ seen' = sn
      /\ gnet' = SendGossip(gnet, PktA(n), n, stored[n], sn)
   /\ op' = [name |-> "Accept", n |-> n]
-  /\ UNCHANGED <<rank, prop, stored, plock, phase, hashes, bnet, qual, clock, fin>>
+  /\ UNCHANGED <<rank, dropped, prop, stored, plock, phase, hashes, bnet, qual, clock, fin>>
 
 (* Command(Execute) by the leader: nothing makes it wait for the accepts.    *)
 Execute ==
@@ -332,7 +335,7 @@ Execute ==
      /\ seen' = sn
      /\ gnet' = SendGossip(gnet, PktE, Leader, stored[Leader], sn)
   /\ op' = [name |-> "Execute"]
-  /\ UNCHANGED <<rank, prop, stored, plock, hashes, bnet, qual, clock, fin>>
+  /\ UNCHANGED <<rank, dropped, prop, stored, plock, hashes, bnet, qual, clock, fin>>
 
 (* Process.Packet at `to`.  A copy for a node that has seen the packet is     *)
 (* ignored; an error leaves the call pending (sendToPeer retries).           *)
@@ -351,7 +354,7 @@ GDeliver(pid, to) ==
                /\ seen' = sn
                /\ gnet' = SendGossip(gnet \ {<<pid, to>>}, pid, to, prop, sn)
   /\ op' = [name |-> "GDeliver", typ |-> pid[1], origin |-> pid[2], to |-> to, from |-> 0]
-  /\ UNCHANGED <<rank, prop, plock, hashes, bnet, qual, clock, fin>>
+  /\ UNCHANGED <<rank, dropped, prop, plock, hashes, bnet, qual, clock, fin>>
 
 (* the leader's own proposal call to m is answered                           *)
 PDeliver(m) ==
@@ -367,7 +370,7 @@ PDeliver(m) ==
             /\ gnet' = SendGossip(gnet \ {<<PktP, m>>}, PktP, m, prop, sn)
   /\ plock' = plock \ {m}
   /\ op' = [name |-> "GDeliver", typ |-> "P", origin |-> 0, to |-> m, from |-> Leader]
-  /\ UNCHANGED <<rank, prop, phase, hashes, bnet, qual, clock, fin>>
+  /\ UNCHANGED <<rank, dropped, prop, phase, hashes, bnet, qual, clock, fin>>
 
 (* the whole gossip phase in one step (configs that explore something else) *)
 GossipAll(js, rs, ls) ==
@@ -380,7 +383,7 @@ GossipAll(js, rs, ls) ==
      /\ stored' = [n \in Nodes |-> IF n \in Recipients(t) THEN t ELSE stored[n]]
      /\ phase' = [n \in Nodes |-> IF n \in Participants(t) THEN "setup" ELSE "idle"]
   /\ op' = [name |-> "GossipAll", join |-> js, remain |-> rs, leave |-> ls]
-  /\ UNCHANGED <<rank, seen, gnet, plock, hashes, bnet, qual, clock, fin>>
+  /\ UNCHANGED <<rank, dropped, seen, gnet, plock, hashes, bnet, qual, clock, fin>>
 
 ExecNodes == Participants(prop)
 
@@ -404,7 +407,7 @@ Start(n) ==
      /\ bnet' = SendBundles(bnet, r.push, n, hs)
      /\ qual' = SetQual(r.ph, n)
   /\ op' = [name |-> "Start", n |-> n]
-  /\ UNCHANGED <<rank, prop, st, stored, seen, gnet, plock, clock, fin>>
+  /\ UNCHANGED <<rank, dropped, prop, st, stored, seen, gnet, plock, clock, fin>>
 
 (* echoBroadcast.BroadcastDKG(b) at node `to`                                *)
 BDeliver(b, to) ==
@@ -422,9 +425,23 @@ BDeliver(b, to) ==
             /\ bnet' = SendBundles(bnet \ {<<b, to>>}, {b} \cup r.push, to, hs)
             /\ qual' = SetQual(r.ph, to)
   /\ op' = [name |-> "BDeliver", kind |-> b[1], origin |-> b[2], to |-> to]
-  /\ UNCHANGED <<rank, prop, st, stored, seen, gnet, plock, clock, fin>>
+  /\ UNCHANGED <<rank, dropped, prop, st, stored, seen, gnet, plock, clock, fin>>
 
 Timely == ExecNodes \ LateSet
+
+(* The network loses the copy of bundle b that its author sent directly to   *)
+(* `to` (at most MaxDrop times per ceremony).  Only the echo of another node  *)
+(* can still bring b to `to`: taken while nobody else has b, so the copy in   *)
+(* flight is the author's; at least three nodes must be relaying.            *)
+BDrop(b, to) ==
+  /\ dropped < MaxDrop
+  /\ <<b, to>> \in bnet
+  /\ Cardinality(Timely) >= 3
+  /\ \A x \in ExecNodes \ {b[2]} : b \notin hashes[x]
+  /\ bnet' = bnet \ {<<b, to>>}
+  /\ dropped' = dropped + 1
+  /\ op' = [name |-> "BDrop", kind |-> b[1], origin |-> b[2], to |-> to]
+  /\ UNCHANGED <<rank, prop, st, stored, seen, gnet, plock, phase, hashes, qual, clock, fin>>
 
 (* phase timeout of node n, under the synchrony assumption of the header     *)
 Timeout(n) ==
@@ -447,7 +464,7 @@ Timeout(n) ==
      /\ bnet' = SendBundles(bnet, r.push, n, hs)
      /\ qual' = SetQual(r.ph, n)
   /\ op' = [name |-> "Timeout", n |-> n]
-  /\ UNCHANGED <<rank, prop, st, stored, seen, gnet, plock, clock, fin>>
+  /\ UNCHANGED <<rank, dropped, prop, st, stored, seen, gnet, plock, clock, fin>>
 
 (* the whole kyber run in one step                                           *)
 ExecAll ==
@@ -457,7 +474,7 @@ ExecAll ==
   /\ phase' = [n \in Nodes |-> IF n \in ExecNodes THEN (IF n \in LateSet THEN "failed" ELSE "done") ELSE phase[n]]
   /\ qual' = [n \in Nodes |-> IF n \in Timely THEN QualOf(prop, LateSet) ELSE qual[n]]
   /\ op' = [name |-> "ExecAll"]
-  /\ UNCHANGED <<rank, prop, st, stored, seen, gnet, plock, hashes, bnet, clock, fin>>
+  /\ UNCHANGED <<rank, dropped, prop, st, stored, seen, gnet, plock, hashes, bnet, clock, fin>>
 
 (* time passes while nodes are finishing                                     *)
 Tick ==
@@ -465,7 +482,7 @@ Tick ==
   /\ \E n \in Nodes : phase[n] = "done" /\ st[n] = "Executing"
   /\ clock' = clock + 1
   /\ op' = [name |-> "Tick", now |-> clock + 1]
-  /\ UNCHANGED <<rank, prop, st, stored, seen, gnet, plock, phase, hashes, bnet, qual, fin>>
+  /\ UNCHANGED <<rank, dropped, prop, st, stored, seen, gnet, plock, phase, hashes, bnet, qual, fin>>
 
 (* startDKGExecution result -> asGroup -> DBState.Complete -> SaveFinished,  *)
 (* the transition time is read from the node's OWN clock NOW.                *)
@@ -474,14 +491,14 @@ Complete(n) ==
   /\ fin' = [fin EXCEPT ![n] = BuildGroup(stored[n], qual[n], rank, clock)]
   /\ st' = [st EXCEPT ![n] = "Done"]
   /\ op' = [name |-> "Complete", n |-> n, now |-> clock]
-  /\ UNCHANGED <<rank, prop, stored, seen, gnet, plock, phase, hashes, bnet, qual, clock>>
+  /\ UNCHANGED <<rank, dropped, prop, stored, seen, gnet, plock, phase, hashes, bnet, qual, clock>>
 
 (* error path -> Failed -> SaveCurrent                                       *)
 Fail(n) ==
   /\ phase[n] = "failed" /\ st[n] = "Executing"
   /\ st' = [st EXCEPT ![n] = "Failed"]
   /\ op' = [name |-> "Fail", n |-> n]
-  /\ UNCHANGED <<rank, prop, stored, seen, gnet, plock, phase, hashes, bnet, qual, clock, fin>>
+  /\ UNCHANGED <<rank, dropped, prop, stored, seen, gnet, plock, phase, hashes, bnet, qual, clock, fin>>
 
 Next ==
   \/ \E js \in ListChoices(JoinSet), rs \in ListChoices(RemainSet), ls \in ListChoices(LeaveSet) :
@@ -490,13 +507,13 @@ Next ==
   \/ Execute
   \/ \E m \in gnet : GDeliver(m[1], m[2])
   \/ \E m \in plock : PDeliver(m)
-  \/ \E m \in bnet : BDeliver(m[1], m[2])
+  \/ \E m \in bnet : BDeliver(m[1], m[2]) \/ BDrop(m[1], m[2])
   \/ ExecAll
   \/ Tick
 
 Spec == Init /\ [][Next]_vars
 
-View == <<rank, prop, st, stored, seen, gnet, plock, phase, hashes, bnet, qual, clock, fin>>
+View == <<rank, dropped, prop, st, stored, seen, gnet, plock, phase, hashes, bnet, qual, clock, fin>>
 
 -----------------------------------------------------------------------------
 (* Invariants of the design                                                  *)
@@ -527,6 +544,13 @@ Inv_SameQual == \A a, b \in Nodes : (phase[a] = "done" /\ phase[b] = "done") => 
 
 \* nothing is refused for lack of a board (the grace-period assumption is effective)
 Inv_NoLoss == \A m \in bnet : phase[m[2]] # "idle"
+
+\* the echo heals a lost direct copy: once nothing is in flight every node knows every bundle
+\* that a node which is not late has pushed
+Inv_EchoHeals ==
+  (prop # NoTerms /\ bnet = {}) =>
+     \A m \in ExecNodes : \A x \in ExecNodes \ LateSet : \A b \in hashes[x] :
+         (b[2] \notin LateSet /\ phase[m] # "idle") => b \in hashes[m]
 
 \* reachability witnesses (negated in *_reach configs)
 AllCompleted == \A n \in (JoinSet \cup RemainSet) \ LateSet : st[n] = "Done"
